@@ -127,6 +127,8 @@ func checkC03(c *hx.Checker) {
 			{{1025}, {1025}}, {{1027}, {1}}, {{}, {1029}}, {{1, 205}, {5, 1}}, {{4099}, {4099}}, {{3, 1367}, {1367}}, {{32771}, {32771}}, {{65539}, {1}}, {{7, 1, 9363}, {1, 1, 9363}},
 			// and exact multiples of the usual block sizes (a remainder computed as n % block is 0 there)
 			{{2048}, {2048}}, {{64, 64}, {64, 64}}, {{8192}, {1}}, {{2, 32768}, {32768}}, {{65536}, {65536}}, {{3, 4096}, {3, 1}},
+			// a row against a column (both stretched), large enough for blocked kernels, in both orders
+			{{200}, {130, 1}}, {{130, 1}, {200}}, {{1, 200}, {130, 1}}, {{3, 1, 100}, {1, 70, 1}},
 			// a small FIRST operand stretched to a large result (the stretched copy is private to the call: tempting to reuse)
 			{{1}, {20000}}, {{}, {16384}}, {{3, 1}, {3, 7000}}, {{1, 1}, {130, 131}}, {{2, 1, 1}, {2, 96, 96}},
 			// per-channel and per-sample partners of feature maps (N,C,H,W)
